@@ -12,11 +12,16 @@
 
   Operands.  Histories are lists of `AOp`: the operand of assign / concat / append / rem / a `%s` argument is a `Src` —
   a C string by value, the target itself, or a view into the target's allocation — and every step takes the allocator's
-  choice `mv` (does `realloc` move the block).  The history theorems carry the explicit, decidable hypothesis `AOp.NoAlias`
-  ("the operand's bytes do not lie in the target's allocation"); the region it excludes is known finding KF-C16-alias-operand:
-  the full statement `C16_alias_statement stepA` is refuted (`C16_alias_refuted`, `C16_alias_operand_refuted`,
-  `C16_alias_always_undefined`, and `C16_show_self_refuted` for `show_to(s, s, pos)`), what does hold there is `C16_alias_partial`, and the proposed repair satisfies the full
-  statement (`C16_alias_repaired`).
+  choice `mv` (does `realloc` move the block).  The history theorems carry the explicit, decidable hypothesis `HistOK`
+  (every call is `AOp.InContract` for the text the target holds when it is made): operands by value always; the target itself
+  or a view at offset 0 for `assign` (early return, fix 744a45f: `C16_assign_self`); ANY operand form for `rem` (a view must
+  start inside the text).  What it excludes is exactly the territory of known finding KF-C16-alias-operand — `assign` with a
+  view at an offset > 0, `concat` / `append` / a `%s` write with the target or any view — and all of it is undefined
+  (`C16_contract_is_exact`): the full statement `C16_alias_statement stepA` is refuted (`C16_alias_refuted`,
+  `C16_alias_operand_refuted`, `C16_alias_always_undefined`, and `C16_show_self_refuted` for `show_to(s, s, pos)`), and the
+  proposed repair satisfies the full statement (`C16_alias_repaired`).
+  Allocation failure: `String_Resize` whose `realloc` returns NULL raises OutOfMemoryError before anything is written
+  (fix 63509f2, `C16_resize_alloc_failure`; the old order is refuted in `C16_resize_alloc_failure_old_refuted`).
   `hash`: `String_Hash` is `hash_data(s->val, strlen(s->val))`; `hash_data` is engine `hash`'s (C10) model `Cello.Hash.hashData`,
   proved there to be MurmurHash64A — `C16_hash_is_murmur` composes the two; `C16_hash_test_vectors` /
   `C16_hash_tail_bytes_count` evaluate it on recorded inputs (the constants of tests/test.c; lengths 0, 8, 9, 16; texts that differ
@@ -34,50 +39,47 @@ import CelloProofs.Lemmas.HashMurmur
 namespace Cello.Str
 
 /-- **One step.** From any well-formed object (a terminator somewhere in the allocation), any operation of the
-    property whose operand does not point into the target's allocation (`op.NoAlias`, decidable) and is NUL-free, whatever
-    the allocator does (`mv`): the object stays well-formed, its text is the list function applied to the old
-    text, every access stayed inside the allocation and nothing undefined happened, and it raises (ValueError) exactly when
-    the spec says `rem` has nothing to remove — in which case the object is unchanged, the whole allocation included. -/
+    property that is in contract for the text the object holds (`op.InContract s.abs`, decidable: everything but the
+    territory of KF-C16-alias-operand — the operand may be the target itself for `assign` and `rem`, a view for `rem`) and
+    whose operand is NUL-free, whatever the allocator does (`mv`): the object stays well-formed, its text is the list function
+    applied to the old text and the bytes the operand denoted when the call was made (`op.absOp s.abs`), every access stayed
+    inside the allocation and nothing undefined happened, and it raises (ValueError) exactly when the spec says `rem` has
+    nothing to remove — in which case the object is unchanged, the whole allocation included. -/
 theorem C16_step_refines {P : Params} (hP : P.Lawful) (J : Nat → Byte) (mv : Bool) (s : Str) (op : AOp)
-    (hs : s.WF) (hna : op.NoAlias) (hop : op.NulFree s) :
+    (hs : s.WF) (hc : op.InContract s.abs) (hop : (op.absOp s.abs).NulFree) :
     let r := stepA P J mv s op
-    r.st.WF ∧ r.st.abs = Spec.step s.abs op.plain ∧ r.defined = true ∧
-      (r.out = .raised .ValueError ↔ Spec.raises s.abs op.plain = true) ∧
-      (Spec.raises s.abs op.plain = true → r.st = s) := by
+    r.st.WF ∧ r.st.abs = Spec.step s.abs (op.absOp s.abs) ∧ r.defined = true ∧
+      (r.out = .raised .ValueError ↔ Spec.raises s.abs (op.absOp s.abs) = true) ∧
+      (Spec.raises s.abs (op.absOp s.abs) = true → r.st = s) := by
   intro r
-  have e : r = step P J s op.plain := stepA_noAlias P J mv s hna
-  have h := step_ok hP J s op.plain hs (nulFree_plain hna s hop)
-  rw [e]
-  exact ⟨h.wf, h.abs, by simp [Res.defined, h.safe, step_not_ub], h.raises, h.unchanged⟩
+  obtain ⟨h, hub⟩ := stepA_ok hP J mv s op hs hc hop
+  exact ⟨h.wf, h.abs, by simp [r, Res.defined, h.safe, hub], h.raises, h.unchanged⟩
 
 /-- **C16 (refinement).** For every way of creating a heap String (`new(String)` or `new(String, $S(init))`), every
-    history of assign / concat / append / resize / clear / rem / formatted writes whose operands are NUL-free and do not
-    point into the target's own allocation (`AOp.NoAlias`: the explicit hypothesis; the region it excludes is
-    `C16_alias_refuted`), and every behaviour of the allocator (`mv i`: does the `i`-th `realloc` move the block), the
-    object holds exactly the abstract string computed by the list functions, and every observer agrees with the list
+    history of assign / concat / append / resize / clear / rem / formatted writes whose operands are NUL-free and whose
+    calls are in contract (`HistOK`: the explicit, decidable hypothesis — by-value operands everywhere, the target itself
+    for `assign`, the target or a view into its text for `rem`; the region it excludes is exactly KF-C16-alias-operand,
+    `C16_contract_is_exact`, `C16_alias_refuted`), and every behaviour of the allocator (`mv i`: does the `i`-th `realloc`
+    move the block), the object holds exactly the abstract string computed by the list functions (`Spec.runA`: an operand
+    that is the target or a view is the text, or its suffix, at the moment of the call), and every observer agrees with the list
     function on that abstract string: `len` = length, `c_str` = the bytes, `cmp` = three-way lexicographic comparison
     of unsigned bytes, `eq` = equality, `mem` = "is a contiguous sublist", `hash` = the hash function applied to exactly
     the bytes of the abstract string — for the `hash_data` of src/Hash.c see `C16_hash_is_murmur` —, `rem` = removal of the
     first occurrence / ValueError when there is none. -/
 theorem C16_refines_bytes {P : Params} (hP : P.Lawful) (J : Nat → Byte) (mv : Nat → Bool) (init : Option (List Byte))
-    (hinit : ∀ x, init = some x → NulFree x) (ops : List AOp) (hna : ∀ op ∈ ops, op.NoAlias)
+    (hinit : ∀ x, init = some x → NulFree x) (ops : List AOp) (hok : HistOK (init.getD []) ops)
     (hops : ∀ op ∈ ops, op.plain.NulFree) :
     let s := (runA P J mv 0 (new P J init).st ops).1
-    let a := Spec.run (init.getD []) (ops.map AOp.plain)
+    let a := Spec.runA (init.getD []) ops
     s.abs = a ∧ len s = a.length ∧ cstr s = a ∧
     (∀ x, NulFree x → cmp s x = lexCmp a x ∧ (eq s x = true ↔ a = x) ∧ (mem s x = true ↔ x <:+: a)) ∧
     (∀ {α : Type} (H : List Byte → α), hash H s = H a) ∧
     (∀ x, NulFree x → (rem P s x).st.abs = (removeFirst x a).getD a ∧
         ((rem P s x).out = .raised .ValueError ↔ ¬ x <:+: a)) := by
   intro s a
-  have hops' : ∀ op ∈ ops.map AOp.plain, op.NulFree := by
-    intro op hop; obtain ⟨o, ho, rfl⟩ := List.mem_map.mp hop; exact hops o ho
   obtain ⟨hwf0, habs0, _⟩ := new_ok hP J init hinit
-  obtain ⟨hwf', habs, _, _⟩ := run_ok hP J (ops.map AOp.plain) (new P J init).st hwf0 hops'
-  have es : s = (run P J (new P J init).st (ops.map AOp.plain)).1 := by
-    show (runA P J mv 0 _ ops).1 = _; rw [runA_eq_run P J mv ops 0 _ hna]
-  have hwf : s.WF := by rw [es]; exact hwf'
-  have ha : s.abs = a := by rw [es, habs, habs0]
+  obtain ⟨hwf, habs, _, _⟩ := runA_ok hP J mv ops 0 (new P J init).st hwf0 (by rw [habs0]; exact hok) hops
+  have ha : s.abs = a := by rw [show s.abs = _ from habs, habs0]
   refine ⟨ha, by rw [len_eq, ha], by rw [cstr_eq, ha], ?_, ?_, ?_⟩
   · intro x hx
     exact ⟨by rw [cmp_eq hwf hx, ha], by rw [eq_iff hwf hx, ha], by rw [mem_iff, ha]⟩
@@ -93,9 +95,9 @@ theorem C16_refines_bytes {P : Params} (hP : P.Lawful) (J : Nat → Byte) (mv : 
     and `len < cap` (the String is terminated inside its own allocation), and every read or write the operation made
     on the buffer lay inside the allocation current at that moment (`off + len ≤ cap` for every log entry — every
     index touched is `< cap`), and no step is undefined.  The observers' reads are in bounds too.  Same explicit hypothesis
-    on the operands as `C16_refines_bytes`. -/
+    on the calls as `C16_refines_bytes` (`HistOK`). -/
 theorem C16_terminated {P : Params} (hP : P.Lawful) (J : Nat → Byte) (mv : Nat → Bool) (init : Option (List Byte))
-    (hinit : ∀ x, init = some x → NulFree x) (ops : List AOp) (hna : ∀ op ∈ ops, op.NoAlias)
+    (hinit : ∀ x, init = some x → NulFree x) (ops : List AOp) (hok : HistOK (init.getD []) ops)
     (hops : ∀ op ∈ ops, op.plain.NulFree) :
     let r0 := new P J init
     (r0.st.buf[len r0.st]? = some 0 ∧ len r0.st < r0.st.cap ∧ r0.log.all Acc.inBounds = true) ∧
@@ -104,16 +106,12 @@ theorem C16_terminated {P : Params} (hP : P.Lawful) (J : Nat → Byte) (mv : Nat
       r.st.buf[len r.st]? = some 0 ∧ len r.st < r.st.cap ∧ r.log.all Acc.inBounds = true ∧ r.out.isUB = false ∧
       (observeLog r.st).all Acc.inBounds = true := by
   intro r0
-  have hops' : ∀ op ∈ ops.map AOp.plain, op.NulFree := by
-    intro op hop; obtain ⟨o, ho, rfl⟩ := List.mem_map.mp hop; exact hops o ho
-  obtain ⟨hwf0, _, hsafe0⟩ := new_ok hP J init hinit
-  obtain ⟨_, _, hlen, hall⟩ := run_ok hP J (ops.map AOp.plain) (new P J init).st hwf0 hops'
-  have e : runA P J mv 0 r0.st ops = run P J r0.st (ops.map AOp.plain) := runA_eq_run P J mv ops 0 _ hna
-  rw [e]
-  refine ⟨⟨(terminated_of_wf hwf0).1, (terminated_of_wf hwf0).2, hsafe0⟩, by rw [hlen, List.length_map], ?_⟩
+  obtain ⟨hwf0, habs0, hsafe0⟩ := new_ok hP J init hinit
+  obtain ⟨_, _, hlen, hall⟩ := runA_ok hP J mv ops 0 (new P J init).st hwf0 (by rw [habs0]; exact hok) hops
+  refine ⟨⟨(terminated_of_wf hwf0).1, (terminated_of_wf hwf0).2, hsafe0⟩, hlen, ?_⟩
   intro r hr
-  obtain ⟨hs, hw⟩ := hall r hr
-  exact ⟨(terminated_of_wf hw).1, (terminated_of_wf hw).2, hs, run_not_ub P J _ _ r hr, observe_safe hw⟩
+  obtain ⟨hs, hw, hub⟩ := hall r hr
+  exact ⟨(terminated_of_wf hw).1, (terminated_of_wf hw).2, hs, hub, observe_safe hw⟩
 
 /-- Allocations are tight: after assign / concat / append / clear / a shrinking resize / a formatted write at
     `pos ≤ len` the terminator is the LAST byte of the allocation (`cap = len + 1`), so "inside its own allocation"
@@ -221,14 +219,11 @@ theorem C16_size_without_terminator_refuted :
     (rem { Params.modelled with remCount := fun _ lp lo => lp - lo + 2 } ⟨[97, 98, 0]⟩ [97]).safe = false := by decide
 
 /-- The text never depends on the indeterminate bytes `realloc` hands out, on whether it moves the block, nor on which lawful
-    parameters are used (operands outside the target's allocation). -/
+    parameters are used (calls in contract). -/
 theorem C16_junk_independent {P P' : Params} (hP : P.Lawful) (hP' : P'.Lawful) (J J' : Nat → Byte) (mv mv' : Nat → Bool)
-    (s : Str) (hs : s.WF) (ops : List AOp) (hna : ∀ op ∈ ops, op.NoAlias) (hops : ∀ op ∈ ops, op.plain.NulFree) :
+    (s : Str) (hs : s.WF) (ops : List AOp) (hok : HistOK s.abs ops) (hops : ∀ op ∈ ops, op.plain.NulFree) :
     (runA P J mv 0 s ops).1.abs = (runA P' J' mv' 0 s ops).1.abs := by
-  have hops' : ∀ op ∈ ops.map AOp.plain, op.NulFree := by
-    intro op hop; obtain ⟨o, ho, rfl⟩ := List.mem_map.mp hop; exact hops o ho
-  rw [runA_eq_run P J mv ops 0 s hna, runA_eq_run P' J' mv' ops 0 s hna,
-    (run_ok hP J _ s hs hops').2.1, (run_ok hP' J' _ s hs hops').2.1]
+  rw [(runA_ok hP J mv ops 0 s hs hok hops).2.1, (runA_ok hP' J' mv' ops 0 s hs hok hops).2.1]
 
 /-- `cmp`'s three results are the lexicographic order of Lean's `List` on unsigned bytes. -/
 theorem C16_cmp_is_lexicographic : ∀ (a b : List Byte),
@@ -271,6 +266,19 @@ theorem C16_block_ops_are_byte_loops (buf bs : List Byte) (off : Nat) :
     strlenLoop buf off (buf.length - off) = strlen buf off :=
   ⟨storeBytes_eq_writeAt bs buf off, strlenLoop_eq _ buf off (Nat.le_refl _)⟩
 
+/-- **`String_Assign` returns at once when the operand's C string is the target's buffer** — in the source as it is now:
+    the translator finds `if (val is s->val) { return; }` between `char* val = c_str(obj);` and the `realloc` (fix 744a45f).
+    Take the statement out, or move it behind the `realloc`, and this theorem stops type-checking (and the driver's
+    `assign(s, s)` becomes the undefined call of `C16_assign_self_old_refuted`). -/
+theorem C16_assign_self_current_source : CelloGen.Str.params.assignSelfReturns = true := by
+  simp [CelloGen.Str.params, CelloGen.Str.assignSelfReturns]
+
+/-- **`String_Resize` tests the result of `realloc` before it writes through it** — in the source as it is now: the
+    translator finds the `CELLO_MEMORY_CHECK` test directly after the `realloc`, before `memset` / the terminator store
+    (fix 63509f2).  (The same position is pinned for `String_New / Assign / Clear / Concat / Format_To` by the shape.) -/
+theorem C16_resize_check_current_source : CelloGen.Str.params.resizeChecksFirst = true := by
+  simp [CelloGen.Str.params, CelloGen.Str.resizeChecksFirst]
+
 /-- **The current source**: the allocation sizes and the `memmove` count that the translator reads from
     src/String.c on this run are lawful, so every theorem above applies to the code as it is now. If a size loses
     its `+ 1` or the count changes, this theorem stops type-checking. -/
@@ -281,23 +289,24 @@ theorem C16_current_source : CelloGen.Str.params.Lawful :=
    fun ls lo => by simp only [CelloGen.Str.params, CelloGen.Str.concatSize],
    fun n => by simp only [CelloGen.Str.params, CelloGen.Str.resizeSize],
    fun pos size => by simp only [CelloGen.Str.params, CelloGen.Str.formatSize],
-   fun ls lp lo h => by simp only [CelloGen.Str.params, CelloGen.Str.remCount]⟩
+   fun ls lp lo h => by simp only [CelloGen.Str.params, CelloGen.Str.remCount],
+   C16_assign_self_current_source, C16_resize_check_current_source⟩
 
 /-- the shape of each function (which libc calls, on which arguments, in which order) is the one modelled -/
 theorem C16_source_shape_as_modelled : CelloGen.Str.shape = CelloGen.Str.shapeModelled := by
   rfl
 
-/-- C16 for the code as it is in /repo now (sizes and count read from the source by the translator), operands outside the
-    target's allocation. -/
+/-- C16 for the code as it is in /repo now (sizes, count, the early return of `String_Assign` and the position of the
+    memory check read from the source by the translator), calls in contract. -/
 theorem C16_holds_for_current_source (J : Nat → Byte) (mv : Nat → Bool) (init : Option (List Byte))
-    (hinit : ∀ x, init = some x → NulFree x) (ops : List AOp) (hna : ∀ op ∈ ops, op.NoAlias)
+    (hinit : ∀ x, init = some x → NulFree x) (ops : List AOp) (hok : HistOK (init.getD []) ops)
     (hops : ∀ op ∈ ops, op.plain.NulFree) :
     let P := CelloGen.Str.params
-    (runA P J mv 0 (new P J init).st ops).1.abs = Spec.run (init.getD []) (ops.map AOp.plain) ∧
+    (runA P J mv 0 (new P J init).st ops).1.abs = Spec.runA (init.getD []) ops ∧
     ∀ r ∈ (runA P J mv 0 (new P J init).st ops).2,
       r.st.buf[len r.st]? = some 0 ∧ len r.st < r.st.cap ∧ r.log.all Acc.inBounds = true ∧ r.out.isUB = false :=
-  ⟨(C16_refines_bytes C16_current_source J mv init hinit ops hna hops).1,
-   fun r hr => let h := (C16_terminated C16_current_source J mv init hinit ops hna hops).2.2 r hr; ⟨h.1, h.2.1, h.2.2.1, h.2.2.2.1⟩⟩
+  ⟨(C16_refines_bytes C16_current_source J mv init hinit ops hok hops).1,
+   fun r hr => let h := (C16_terminated C16_current_source J mv init hinit ops hok hops).2.2 r hr; ⟨h.1, h.2.1, h.2.2.1, h.2.2.2.1⟩⟩
 
 /-! ### formatted writes that reach the String through `print_to_with` / `show_to` (src/Show.c) -/
 
@@ -494,13 +503,13 @@ theorem C16_rejected_format_old_refuted :
     to the published algorithm in engine `hash` (C10, `hashData_eq_murmur`).  After any history as in `C16_refines_bytes`;
     in particular Strings with equal text hash equally whatever lies behind their terminators. -/
 theorem C16_hash_is_murmur {P : Params} (hP : P.Lawful) (J : Nat → Byte) (mv : Nat → Bool) (init : Option (List Byte))
-    (hinit : ∀ x, init = some x → NulFree x) (ops : List AOp) (hna : ∀ op ∈ ops, op.NoAlias)
+    (hinit : ∀ x, init = some x → NulFree x) (ops : List AOp) (hok : HistOK (init.getD []) ops)
     (hops : ∀ op ∈ ops, op.plain.NulFree) :
     let s := (runA P J mv 0 (new P J init).st ops).1
-    hash Cello.Hash.hashData s = Cello.Hash.murmur64A 0xCe110 (Spec.run (init.getD []) (ops.map AOp.plain)) ∧
+    hash Cello.Hash.hashData s = Cello.Hash.murmur64A 0xCe110 (Spec.runA (init.getD []) ops) ∧
     ∀ t : Str, t.WF → t.abs = s.abs → hash Cello.Hash.hashData t = hash Cello.Hash.hashData s := by
   intro s
-  have h := C16_refines_bytes hP J mv init hinit ops hna hops
+  have h := C16_refines_bytes hP J mv init hinit ops hok hops
   refine ⟨by rw [h.2.2.2.2.1 Cello.Hash.hashData]; exact Cello.Hash.hashData_eq_murmur _, ?_⟩
   intro t ht hts
   rw [hash_eq _ ht, hts, h.2.2.2.2.1 Cello.Hash.hashData, h.1]
@@ -544,8 +553,8 @@ theorem C16_hash_tail_bytes_count :
 
 /-! ### operands that point into the target's own allocation (known finding KF-C16-alias-operand)
 
-  `assign(s, s)`, `concat(s, s)`, `append(s, s)`, `concat(s, $S(c_str(s) + k))`, `assign(s, $S(c_str(s) + k))`,
-  `print_to(s, pos, "%s", s)`: nothing in the property exempts them ("equal in value to the target, substrings at the start,
+  `concat(s, s)`, `append(s, s)`, `concat(s, $S(c_str(s) + k))`, `assign(s, $S(c_str(s) + k))` with `k > 0`,
+  `print_to(s, pos, "%s", s)` (`assign(s, s)` was one of them until fix 744a45f: `C16_assign_self`): nothing in the property exempts them ("equal in value to the target, substrings at the start,
   middle and end" — the target's own buffer is where such operands most naturally come from).  src/String.c computes the
   operand's pointer, reallocates, and then reads through the pointer: the model (`assignA`, `concatA`, `formatA`; `mv` = the
   allocator moved the block) returns `ub` there. -/
@@ -558,15 +567,16 @@ def C16_alias_statement (impl : Params → (Nat → Byte) → Bool → Str → A
     (impl P J mv s op).defined = true ∧ (impl P J mv s op).st.WF ∧
       (impl P J mv s op).st.abs = Spec.step s.abs (op.toOp s)
 
-/-- **refuted by the code as it is**: `assign(s, s)` on "ab" with a moving allocator reads the freed block -/
+/-- **refuted by the code as it is**: `concat(s, s)` on "ab" is `strcat(p, p)`; `assign(s, $S(c_str(s) + 1))` with a moving
+    allocator reads the freed block -/
 theorem C16_alias_refuted : ¬ C16_alias_statement stepA := by
   intro h
-  have := (h .modelled Params.modelled_lawful (fun _ => 165) true ⟨[97, 98, 0]⟩ (.assign .self) (by decide) (by decide)
+  have := (h .modelled Params.modelled_lawful (fun _ => 165) true ⟨[97, 98, 0]⟩ (.assign (.view 1)) (by decide) (by decide)
     (by decide)).1
   revert this; decide
 
 /-- **the witnesses of corpus/kf_c16_alias.ops in the model**, target "ab" (allocation `61 62 00`), per site and per
-    behaviour of the allocator: `assign(s, s)` — moved: use after free, in place: `strcpy(p, p)`; `assign(s, $S(c_str(s)+1))`
+    behaviour of the allocator: `assign(s, $S(c_str(s)+1))` — moved: use after free,
     in place: the block was cut to 2 bytes, the view's terminator is gone; `concat(s, s)` / `append(s, s)` — `strcat(p, p)`
     either way; `concat(s, $S(c_str(s)))` — moved: use after free, in place: overlap; `print_to(s, 1, "%s", s)` — moved: use
     after free, in place: the text written overlaps its own source.  None is defined, so none has the by-value result
@@ -575,23 +585,24 @@ theorem C16_alias_operand_refuted :
     let P := Params.modelled
     let J : Nat → Byte := fun _ => 165
     let s : Str := ⟨[97, 98, 0]⟩
-    (assignA P J true s .self).out = .ub .useAfterFree ∧ (assignA P J false s .self).out = .ub .overlap ∧
     (assignA P J true s (.view 1)).out = .ub .useAfterFree ∧ (assignA P J false s (.view 1)).out = .ub .outOfBounds ∧
     (concatA P J true s .self).out = .ub .overlap ∧ (concatA P J false s .self).out = .ub .overlap ∧
     (concatA P J true s (.view 0)).out = .ub .useAfterFree ∧ (concatA P J false s (.view 0)).out = .ub .overlap ∧
     (formatA P J true s 1 id .self).out = .ub .useAfterFree ∧ (formatA P J false s 1 id .self).out = .ub .overlap ∧
     (∀ mv, (stepA P J mv s (.append .self)).defined = false) ∧
-    s.WF ∧ (AOp.assign (.view 1)).InText s ∧ (AOp.assign (.view 1)).NulFree s ∧ ¬ (AOp.assign (.view 1)).NoAlias := by
+    s.WF ∧ (AOp.assign (.view 1)).InText s ∧ (AOp.assign (.view 1)).NulFree s ∧ ¬ (AOp.assign (.view 1)).InContract s.abs ∧
+    ¬ (AOp.concat .self).InContract s.abs := by
   decide
 
 /-- **the whole excluded region is undefined, not just the witnesses**: for every lawful size arithmetic, every well-formed
-    target, every offset inside its text, every position inside its text and BOTH behaviours of the allocator, an aliased
-    `assign`, `concat`, `append` and `%s` write is undefined — a moving `realloc` makes the copy read freed memory (also for any
+    target, every offset inside its text, every position inside its text and BOTH behaviours of the allocator, an `assign`
+    whose operand is a view at an offset > 0, and a `concat`, `append` and `%s` write whose operand is the target or any view,
+    is undefined — a moving `realloc` makes the copy read freed memory (also for any
     other `render`), a `realloc` in place leaves `strcpy` / `strcat` / `vsprintf` with overlapping objects or a view whose
-    terminator was cut off.  (So the hypothesis `AOp.NoAlias` of the history theorems excludes nothing that the code defines.) -/
+    terminator was cut off.  (So the hypothesis of the history theorems excludes nothing that the code defines: `C16_contract_is_exact`.) -/
 theorem C16_alias_always_undefined {P : Params} (hP : P.Lawful) (J : Nat → Byte) (mv : Bool) (s : Str) (hs : s.WF)
     (src : Src) (halias : ¬ src.Disjoint) (hoff : src.off ≤ s.abs.length) (pos : Nat) (hpos : pos ≤ s.abs.length) :
-    (stepA P J mv s (.assign src)).out.isUB = true ∧ (stepA P J mv s (.concat src)).out.isUB = true ∧
+    (0 < src.off → (stepA P J mv s (.assign src)).out.isUB = true) ∧ (stepA P J mv s (.concat src)).out.isUB = true ∧
     (stepA P J mv s (.append src)).out.isUB = true ∧ (stepA P J mv s (.formatS pos src)).out.isUB = true ∧
     (mv = true → ∀ render, (formatA P J mv s pos render src).out.isUB = true) := by
   have hin : inBlock s.buf src.off = true := by
@@ -600,18 +611,126 @@ theorem C16_alias_always_undefined {P : Params} (hP : P.Lawful) (J : Nat → Byt
   cases src with
   | val x => exact absurd trivial halias
   | self =>
-    refine ⟨assignAt_ub hP J mv s hs 0 hoff, ?_, ?_, formatAt_id_ub hP J mv s hs pos 0 hpos hoff, ?_⟩
+    refine ⟨fun h => absurd h (Nat.lt_irrefl 0), ?_, ?_, formatAt_id_ub hP J mv s hs pos 0 hpos hoff, ?_⟩
     · show (concatA P J mv s .self).out.isUB = true; rw [concatA_self_ub hP J mv s hs]; rfl
     · show (concatA P J mv s .self).out.isUB = true; rw [concatA_self_ub hP J mv s hs]; rfl
     · intro hm render; subst hm
       show (formatAt P J true s pos render 0).out.isUB = true
       rw [(moved_is_useAfterFree P J s 0 hin pos render).2.2]; rfl
   | view off =>
-    refine ⟨assignAt_ub hP J mv s hs off hoff, concatA_view_ub hP J mv s hs off hoff, concatA_view_ub hP J mv s hs off hoff,
+    refine ⟨fun h => by
+        show (assignA P J mv s (.view off)).out.isUB = true
+        rw [assignA_view_pos P J mv s off h]; exact assignAt_ub hP J mv s hs off hoff,
+      concatA_view_ub hP J mv s hs off hoff, concatA_view_ub hP J mv s hs off hoff,
       formatAt_id_ub hP J mv s hs pos off hpos hoff, ?_⟩
     intro hm render; subst hm
     show (formatAt P J true s pos render off).out.isUB = true
     rw [(moved_is_useAfterFree P J s off hin pos render).2.2]; rfl
+
+/-- **`assign(s, s)` leaves `s` unchanged** (fix 744a45f: `if (val is s->val) { return; }` right after `char* val = c_str(obj);`).
+    For every lawful parameter set — in particular the current source, `C16_assign_self_current_source` —, every object
+    (well-formed or not), both behaviours the allocator could have had, and both operand forms whose C string is the target's
+    buffer (the target itself; a view at offset 0, `$S(c_str(s))`): the call returns normally, the object is the same down to
+    the last byte of its allocation, and not a byte was read or written.  So it is the by-value result (`assign` of the text
+    the operand denotes = the text itself) and the call is in contract (`AOp.InContract`); also reached through
+    `set(tree, k, v)` / `set(array, i, x)` with the container's own String objects.  A view at an offset > 0 is a different
+    pointer and stays in the finding's territory (`C16_alias_always_undefined`). -/
+theorem C16_assign_self {P : Params} (hP : P.Lawful) (J : Nat → Byte) (mv : Bool) (s : Str) :
+    stepA P J mv s (.assign .self) = { st := s, out := .ok 0, log := [] } ∧
+    stepA P J mv s (.assign (.view 0)) = { st := s, out := .ok 0, log := [] } ∧
+    (s.WF → (stepA P J mv s (.assign .self)).st.abs = Spec.step s.abs ((AOp.assign .self).absOp s.abs) ∧
+      (stepA P J mv s (.assign .self)).defined = true ∧
+      (AOp.assign .self).InContract s.abs ∧ (AOp.assign (.view 0)).InContract s.abs) :=
+  ⟨assignA_self hP J mv s .self id rfl, assignA_self hP J mv s (.view 0) id rfl,
+   fun _ => ⟨by rw [show stepA P J mv s (.assign .self) = _ from assignA_self hP J mv s .self id rfl]; rfl,
+             by rw [show stepA P J mv s (.assign .self) = _ from assignA_self hP J mv s .self id rfl]; rfl,
+             Or.inr rfl, Or.inr rfl⟩⟩
+
+/-- **before 744a45f** (`Params.assignUnguarded`: no early return) `assign(s, s)` went on to `realloc(s->val, strlen(val) + 1)`
+    and `strcpy(s->val, val)` with `val` the OLD pointer: for every well-formed target and both behaviours of the allocator the
+    call was undefined (moved: the copy reads the freed block; in place: `strcpy(p, p)`), on "ab" concretely; the code as it is
+    now returns the object unchanged.  A source without the guard is not `Lawful`. -/
+theorem C16_assign_self_old_refuted :
+    (∀ (J : Nat → Byte) (mv : Bool) (s : Str), s.WF → (stepA .assignUnguarded J mv s (.assign .self)).out.isUB = true) ∧
+    (assignA .assignUnguarded (fun _ => 165) true ⟨[97, 98, 0]⟩ .self).out = .ub .useAfterFree ∧
+    (assignA .assignUnguarded (fun _ => 165) false ⟨[97, 98, 0]⟩ .self).out = .ub .overlap ∧
+    (assignA .modelled (fun _ => 165) true ⟨[97, 98, 0]⟩ .self).st = ⟨[97, 98, 0]⟩ ∧
+    ¬ Params.assignUnguarded.Lawful := by
+  refine ⟨fun J mv s hs => ?_, by decide, by decide, by decide, fun h => by have := h.assignSelf; revert this; decide⟩
+  have hP : ({ Params.assignUnguarded with assignSelfReturns := true } : Params).Lawful := Params.modelled_lawful
+  have := assignAt_ub hP J mv s hs 0 (Nat.zero_le _)
+  exact this
+
+/-- **`resize` when the allocation fails** (fix 63509f2: the `CELLO_MEMORY_CHECK` test directly after the `realloc`).
+    For every lawful parameter set — the current source: `C16_resize_check_current_source` —, every object and every `n`:
+    `String_Resize` raises OutOfMemoryError; nothing was written (the only access is the `strlen` of `String_Len` before the
+    `realloc`, inside the allocation for a well-formed object).  What it leaves: `s->val = realloc(s->val, n+1)` has already
+    stored the NULL, so the object holds `val == NULL` (`buf = []`: NOT a C string any more — no terminator, `¬ WF`) and the
+    old block, which a failed `realloc` does not free, is no longer referenced by the object (leaked).  With a `realloc` that
+    succeeds `resizeR` is `resize`. -/
+theorem C16_resize_alloc_failure {P : Params} (hP : P.Lawful) (J : Nat → Byte) (s : Str) (n : Nat) :
+    (resizeR P J s n true).out = .raised .OutOfMemoryError ∧ (resizeR P J s n true).st.buf = [] ∧ ¬ (resizeR P J s n true).st.WF ∧
+    (∀ a ∈ (resizeR P J s n true).log, a.write = false) ∧ (s.WF → (resizeR P J s n true).safe = true) ∧
+    resizeR P J s n false = resize P J s n := by
+  have e : resizeR P J s n true = { st := ⟨[]⟩, out := .raised .OutOfMemoryError, log := [Acc.rd 0 (strlen s.buf 0 + 1) s.buf.length] } := by
+    simp [resizeR, resizeFail, hP.resizeCheck]
+  rw [e]
+  refine ⟨rfl, rfl, by simp [Str.WF], by simp [Acc.rd], fun hs => ?_, by simp [resizeR]⟩
+  have := observe_safe hs
+  simpa [Res.safe, observeLog] using this
+
+/-- **before 63509f2** (`Params.resizeChecksLate`) the `memset(&s->val[m], 0, n - m)` / `s->val[n] = '\0'` stood between the
+    `realloc` and the test: a failed allocation was a write through NULL — undefined, no exception (growing and shrinking
+    alike; observed as a segmentation fault for `resize(s, 1 << 46)`).  A source with that order is not `Lawful`. -/
+theorem C16_resize_alloc_failure_old_refuted :
+    (∀ (J : Nat → Byte) (s : Str) (n : Nat), (resizeR .resizeChecksLate J s n true).out = .ub .nullDeref) ∧
+    (resizeR .resizeChecksLate (fun _ => 165) ⟨[97, 98, 0]⟩ 9 true).log = [.rd 0 3 3, .wr 2 7 0] ∧
+    (resizeR .resizeChecksLate (fun _ => 165) ⟨[97, 98, 0]⟩ 1 true).log = [.rd 0 3 3, .wr 1 1 0] ∧
+    (resizeR .modelled (fun _ => 165) ⟨[97, 98, 0]⟩ 9 true).out = .raised .OutOfMemoryError ∧
+    ¬ Params.resizeChecksLate.Lawful := by
+  refine ⟨fun J s n => by simp [resizeR, resizeFail, Params.resizeChecksLate, Params.modelled], by decide, by decide, by decide,
+    fun h => by have := h.resizeCheck; revert this; decide⟩
+
+/-- **the hypothesis of the history theorems excludes exactly the undefined calls.**  For every lawful parameter set,
+    well-formed target, operation whose operand (if it is a view) starts inside the text and is NUL-free, and — for a `%s`
+    write — a position inside the text: if the call is in contract (`AOp.InContract`) it is defined for both behaviours of the
+    allocator; if it is not, it is undefined for both.  (In contract: by-value operands; `assign` with the target or a view at
+    offset 0; `rem` with any operand.  Not in contract = KF-C16-alias-operand: `assign` with a view at an offset > 0; `concat`,
+    `append`, `%s` with the target or any view.) -/
+theorem C16_contract_is_exact {P : Params} (hP : P.Lawful) (J : Nat → Byte) (mv : Bool) (s : Str) (hs : s.WF) (op : AOp)
+    (hin : op.InText s) (hnf : op.NulFree s) (hpos : ∀ pos src, op = .formatS pos src → pos ≤ s.abs.length) :
+    (op.InContract s.abs → (stepA P J mv s op).defined = true) ∧
+    (¬ op.InContract s.abs → (stepA P J mv s op).out.isUB = true) := by
+  constructor
+  · intro hc
+    have hn : (op.absOp s.abs).NulFree := by rw [← toOp_eq_absOp hs hin]; exact hnf
+    obtain ⟨h, hub⟩ := stepA_ok hP J mv s op hs hc hn
+    simp [Res.defined, h.safe, hub]
+  · intro hc
+    cases op with
+    | assign src =>
+      cases src with
+      | val x => exact absurd (Or.inl trivial) hc
+      | self => exact absurd (Or.inr rfl) hc
+      | view off =>
+        have h0 : 0 < off := Nat.pos_of_ne_zero fun h => hc (Or.inr h)
+        exact (C16_alias_always_undefined hP J mv s hs (.view off) id hin 0 (Nat.zero_le _)).1 h0
+    | concat src =>
+      exact (C16_alias_always_undefined hP J mv s hs src hc hin 0 (Nat.zero_le _)).2.1
+    | append src =>
+      exact (C16_alias_always_undefined hP J mv s hs src hc hin 0 (Nat.zero_le _)).2.2.1
+    | formatS pos src =>
+      exact (C16_alias_always_undefined hP J mv s hs src hc hin pos (hpos pos src rfl)).2.2.2.1
+    | rem src => exact absurd hin hc
+    | resize n => exact absurd trivial hc
+    | clear => exact absurd trivial hc
+    | format pos f => exact absurd trivial hc
+
+/-- histories all of whose operands are by value (the form the theorems had before the operands were widened) are in
+    contract, and their specification is the by-value one -/
+theorem C16_by_value_histories_in_contract (a : List Byte) (ops : List AOp) (hna : ∀ op ∈ ops, op.NoAlias) :
+    HistOK a ops ∧ Spec.runA a ops = Spec.run a (ops.map AOp.plain) :=
+  histOK_of_noAlias ops a hna
 
 /-- **`show_to(s, s, pos)` / `print_to(s, pos, "%$", s)` — String_Show into the String it shows — never yields the shown
     text**: `String_Show` walks `s->val` with a cursor while every `print_to` it makes reallocates that block.  For every
@@ -627,7 +746,8 @@ theorem C16_show_self_refuted :
     (showFrags [104, 105]).flatten = [34, 104, 105, 34] := by
   refine ⟨fun hP J mv hmv fuel s hs pos hpos => showSelf_moved_ub hP J mv hmv fuel s hs pos hpos, by decide, by decide +kernel, by decide⟩
 
-/-- **what does hold for aliased operands** (`_partial`: the part of `C16_alias_statement stepA` that is true).
+/-- **what does hold for aliased operands** (`_partial`: the part of `C16_alias_statement stepA` that is true; since the
+    second audit round aliased `rem` and `assign(s, s)` are also inside the history theorems, `HistOK`).
     `rem(s, obj)` with `obj` the target or a view into it makes no `realloc` and reads the operand completely before its one
     `memmove`: it is `rem` of the bytes the operand denotes — defined, well-formed, first occurrence removed (`rem(s, s)`
     empties `s`; a view of a suffix that also occurs earlier removes the EARLIER occurrence), ValueError never (a suffix of
@@ -674,16 +794,22 @@ theorem C16_alias_partial {P : Params} (hP : P.Lawful) (J : Nat → Byte) (mv : 
 theorem C16_alias_repaired : C16_alias_statement stepFix :=
   fun _ hP J mv s op hs hin hnf => stepFix_ok hP J mv s op hs hin hnf
 
-/-- the hypothesis `AOp.NoAlias` is met by a reachable history that exercises every operation, from `new(String, $S("hello"))`;
-    an aliased one does not meet it (and the decision procedure says so) -/
+/-- the hypothesis `HistOK` is met by a reachable history that exercises every operation, from `new(String, $S("hello"))` —
+    with `assign(s, s)`, `rem(s, $S(c_str(s) + 6))` (the suffix "lo" of "helo wlo": the EARLIER occurrence goes) and finally
+    `rem(s, s)`; histories with an aliased `concat` / `%s` / `assign` from a view at an offset > 0, or a `rem` with a view
+    behind the terminator, do not meet it (and the decision procedure says so) -/
 example :
-    let ops : List AOp := [.concat (.val [32, 119]), .resize 9, .rem (.val [108]), .format 3 [88, 89], .append (.val [33]),
-      .formatS 2 (.val [113]), .resize 2, .rem (.val [122]), .clear, .assign (.val [97, 97, 97]), .rem (.val [97, 97])]
-    (∀ op ∈ ops, op.NoAlias) ∧ (∀ op ∈ ops, op.plain.NulFree) ∧
+    let ops : List AOp := [.concat (.val [32, 119]), .resize 9, .rem (.val [108]), .assign .self, .append (.val [108, 111]),
+      .rem (.view 6), .format 3 [88, 89], .append (.val [33]),
+      .formatS 2 (.val [113]), .resize 2, .rem (.val [122]), .clear, .assign (.val [97, 97, 97]), .rem (.val [97, 97]),
+      .assign (.view 0), .rem (.view 1), .append (.val [98]), .rem .self]
+    HistOK [104, 101, 108, 108, 111] ops ∧ (∀ op ∈ ops, op.plain.NulFree) ∧
     (runA .modelled (fun _ => 165) (fun i => i % 2 == 0) 0 (new .modelled (fun _ => 165) (some [104, 101, 108, 108, 111])).st ops).1
-      = ⟨[97, 0, 97, 0]⟩ ∧
-    Spec.run [104, 101, 108, 108, 111] (ops.map AOp.plain) = [97] ∧
-    ¬ (AOp.concat .self).NoAlias ∧ ¬ (AOp.formatS 0 (.view 2)).NoAlias := by decide
+      = ⟨[0, 98, 0]⟩ ∧
+    Spec.runA [104, 101, 108, 108, 111] ops = [] ∧
+    Spec.runA [104, 101, 108, 108, 111] (ops.take 6) = [104, 101, 32, 119, 108, 111] ∧
+    ¬ HistOK [97, 98] [.concat .self] ∧ ¬ HistOK [97, 98] [.formatS 0 (.view 2)] ∧ ¬ HistOK [97, 98] [.assign (.view 1)] ∧
+    ¬ HistOK [97, 98] [.clear, .rem (.view 1)] ∧ HistOK [97, 98] [.rem (.view 2), .assign .self] := by decide
 
 /-- the hypotheses of `C16_alias_statement` / `C16_alias_repaired` are met by an aliased call on a String with stale bytes
     behind its terminator, and the repaired step gives the by-value result there: `concat(s, $S(c_str(s) + 1))` on "hi" -/
